@@ -546,7 +546,7 @@ func (m *Machine) intrinsic(s *State, f *Frame, x *ssa.Call, name string, callee
 		id := s.alloc(BoxV{v: s.load(args[0].(Ptr)), typ: callee.Signature.Recv().Type().String()})
 		f.env[x] = TupleV{[]Value{SliceV{obj: id, len: 1, cap: 1}, IfaceV{}}}
 		return nil, true
-	case strings.HasPrefix(name, "time.") || strings.HasPrefix(name, "(time."):
+	case strings.HasPrefix(name, "time.") || strings.HasPrefix(name, "(time.") || strings.HasPrefix(name, "(*time."):
 		if r, ok := m.timeIntrinsic(s, f, x, name, args); ok {
 			return r, true
 		}
@@ -962,6 +962,15 @@ func (m *Machine) timeIntrinsic(s *State, f *Frame, x *ssa.Call, name string, ar
 	case "time.After":
 		id := s.alloc(ChanV{cap: 1, buf: []Value{m.zero(x.Type().Underlying().(*types.Chan).Elem())}})
 		f.env[x] = Ptr{obj: id}
+		return nil, true
+	case "time.NewTimer":
+		// the timer may fire at any moment: its channel is ready from the start
+		m.stubs["time.NewTimer: may fire at any moment (durations are not modelled)"]++
+		tk := m.zero(x.Type().(*types.Pointer).Elem()).(StructV)
+		et := tk.f[0]
+		_ = et
+		tk.f[0] = Ptr{obj: s.alloc(ChanV{cap: 1, buf: []Value{m.zero(m.timeType(x))}})}
+		f.env[x] = Ptr{obj: s.alloc(tk)}
 		return nil, true
 	case "time.NewTicker":
 		// periodic background work (retention trimmers) is checked by its own harnesses: the tick never fires here
